@@ -113,7 +113,9 @@ func (w *world) lastUpdObs(how string, b uint64, open readerOpen, twin luRes) {
 			return
 		}
 		w.res.Compared(1)
-		if m != class {
+		// a write in block 0 whose entry is gone reads as "0 = never written": the lost answer coincides with the right one
+		coincides := m == "lost" && lw == 0 && class == "ok"
+		if m != class && !coincides {
 			w.mismatch("answer-lastUpdatedBlock-"+how, map[string]any{"slot": k.name, "block": b, "last_write": lw,
 				"situation": w.situation, "height": w.height}, m, fmt.Sprintf("%s (node %d, twin %d)", class, node.vals[i], twin.vals[i]))
 		}
